@@ -202,6 +202,11 @@ def run(ctx) -> Result:
     for part in pmap(_combo, combos):
         res.merge(part)
     res.exhaustive = False
+    # Redis broker: sessions on the real RedisMessageBroker/_RedisConsumer (in-process fake server) vs the Lean model
+    # Redis.R, and this property's clauses on what the implementation did
+    import redisrun
+    res.merge(redisrun.part(ctx, "C03", ['mixed'], n_quick=4, n_deep=16, crash=12, race=0))
+    res.assumptions = list(getattr(res, "assumptions", []) or []) + redisrun.ASSUMPTIONS
     return res
 
 
